@@ -32,7 +32,9 @@ def rich_tree(rng, hostile=True, n_hostile=8, umn=True, mtime=1_700_000_000, par
         {"path": "emptydir", "kind": "dir"},
         {"path": "maps", "kind": "dir"},
         {"path": "maps/gophermap", "data": "iwelcome to maps\n\n0alpha\t/a.txt\n1dir one\t/dir1\n0relative\tn.txt\n"
-                                           "1remote\t/r\tgopher.other.example\t7070\nhweb\tURL:http://www.example.com/\n0nosel\n"},
+                                           "1remote\t/r\tgopher.other.example\t7070\nhweb\tURL:http://www.example.com/\n0nosel\n"
+                                           "hWrite to the admin\tURL:mailto:admin@example.org\n1other daemon on this host\t/dir1/sub\tgopher.example\t70\n"
+                                           "1this server by name\t/dir1\tgopher.example\t7070\n"},
         {"path": "maps/n.txt", "data": "note\n"},
         {"path": "mail.mbox", "data": MBOX},
         {"path": "md", "kind": "dir"}, {"path": "md/new", "kind": "dir"}, {"path": "md/cur", "kind": "dir"},
@@ -49,7 +51,9 @@ def rich_tree(rng, hostile=True, n_hostile=8, umn=True, mtime=1_700_000_000, par
             {"path": "umn/three.txt", "data": "3\n"},
             {"path": "umn/.Links", "data": "Name=Remote thing\nType=1\nPath=/pub\nHost=gopher.remote.example\nPort=70\n\n"
                                           "Name=Local alias\nType=0\nPath=/a.txt\nHost=+\nPort=+\nNumb=1\n\n"
-                                          "Name=A web link\nType=h\nPath=URL:http://www.example.org/x?y=1&z=2\n"},
+                                          "Name=A web link\nType=h\nPath=URL:http://www.example.org/x?y=1&z=2\n\n"
+                                          "Name=Mail link\nType=h\nPath=URL:mailto:someone@example.org\n\n"
+                                          "Name=Port seventy\nType=1\nPath=/dir1\nHost=gopher.example\nPort=70\n"},
             {"path": "umn/.names", "data": "Path=./two.txt\nName=Second file\nNumb=2\nAbstract=about two\n"},
             {"path": "umn/.cap", "kind": "dir"},
             {"path": "umn/.cap/three.txt", "data": "Name=Third <file>\n"},
